@@ -1,5 +1,230 @@
-"""Verus engine: mechanical extraction of real functions + contracts into one file (see DESIGN.md 2.2)."""
+"""Verus engine: mechanical extraction of real functions + contracts into one file (DESIGN.md 2.2).
+
+The extractor changes exactly this and nothing else (also stated in /verif/verus/*.toml):
+  * drops lines that consist of a logging macro call (warn!/debug!/info!/trace!/error!)
+  * names the return value: `-> T {` becomes `-> (r: T)`
+  * inserts requires/ensures between signature and body
+  * k-th loop (source order): optional ghost iterator name (`for _ in it: args`), invariant clauses after the header
+Anything that does not fit (function missing, different number of loops) is exit 2, never an alarm.
+"""
+import glob, json, os, re, subprocess, time, tomllib
+
+VERIF = os.path.dirname(os.path.dirname(os.path.abspath(__file__)))
+VDIR = os.path.join(VERIF, 'verus')
+LOGMAC = re.compile(r'^\s*(warn|debug|info|trace|error)!\(.*\);\s*$')
+FN_RE = r'^[ \t]*(?:pub(?:\([a-z]+\))?[ \t]+)?fn[ \t]+%s[ \t]*[(<]'
+
+
+def load():
+    units = []
+    for p in sorted(glob.glob(os.path.join(VDIR, '*.toml'))):
+        u = tomllib.load(open(p, 'rb'))
+        u['_path'] = p
+        units.append(u)
+    return units
+
+
 def select(prop, tier, only):
-    return []
-def run_unit(vu, repo, scratch, out_dir):
-    return {'records': []}
+    out = []
+    for u in load():
+        if prop in u.get('props', []):
+            if only and only not in u['unit'] and not any(only in f['id'] for f in u['function']):
+                continue
+            out.append(u)
+    return out
+
+
+def extract_fn(src, name):
+    m = re.search(FN_RE % re.escape(name), src, re.M)
+    if not m:
+        return None
+    i = src.index('{', m.end())        # body start (signatures here contain no braces)
+    depth = 0
+    j = i
+    while j < len(src):
+        c = src[j]
+        if c == '{':
+            depth += 1
+        elif c == '}':
+            depth -= 1
+            if depth == 0:
+                break
+        j += 1
+    return src[m.start():i], src[i:j + 1]
+
+
+LOOP_RE = re.compile(r'^(\s*)(for\s+.+?\s+in\s+)(.+?)\s*\{\s*$|^(\s*)(while\s+.+?|loop)\s*\{\s*$')
+
+
+def annotate(sig, body, f, rename=None, ensures_override=None):
+    """returns annotated text or raises ValueError(reason)"""
+    name = f['name']
+    sig = sig.rstrip()
+    m = re.search(r'->\s*([^{]+?)\s*$', sig)
+    if m:
+        sig = sig[:m.start()] + f'-> (r: {m.group(1).strip()})'
+    if rename:
+        sig = re.sub(r'fn\s+' + re.escape(name), 'fn ' + rename, sig, count=1)
+    spec = ''
+    if f.get('requires'):
+        spec += '\n    requires\n' + ''.join(f'        {r},\n' for r in f['requires'])
+    ens = ensures_override if ensures_override is not None else f.get('ensures', [])
+    if ens:
+        spec += ('\n' if not spec else '') + '    ensures\n' + ''.join(f'        {e},\n' for e in ens)
+    lines = body.split('\n')
+    out = []
+    k = 0
+    loops = f.get('loop', [])
+    dropped = 0
+    for ln in lines:
+        if LOGMAC.match(ln):
+            dropped += 1
+            continue
+        lm = LOOP_RE.match(ln)
+        if lm:
+            if k >= len(loops):
+                raise ValueError(f'SHAPE-CHANGED: {name} has more loops than the {len(loops)} the contract file lists')
+            spec_l = loops[k]
+            k += 1
+            if lm.group(2) is not None:
+                indent, head, it = lm.group(1), lm.group(2), lm.group(3)
+                if spec_l.get('ghost_iter'):
+                    head = head + spec_l['ghost_iter'] + ': '
+                new = f'{indent}{head}{it}\n'
+            else:
+                indent, head = lm.group(4), lm.group(5)
+                new = f'{indent}{head}\n'
+            inv = spec_l.get('invariant', [])
+            if inv:
+                new += f'{indent}    invariant\n' + ''.join(f'{indent}        {c},\n' for c in inv)
+            if spec_l.get('decreases'):
+                new += f'{indent}    decreases {spec_l["decreases"]},\n'
+            new += f'{indent}{{'
+            out.append(new)
+            continue
+        out.append(ln)
+    if k != len(loops):
+        raise ValueError(f'SHAPE-CHANGED: {name} has {k} loops, the contract file lists {len(loops)}')
+    return sig + spec + '\n'.join(out) + '\n', dropped
+
+
+def run_unit(u, repo, scratch, out_dir):
+    t0 = time.time()
+    records = []
+    ids = [f['id'] for f in u['function']]
+
+    def undecided_all(reason):
+        for f in u['function']:
+            records.append({'id': f['id'], 'engine': 'verus', 'kind': 'complete', 'status': 'undecided', 'reason': reason,
+                            'text': f.get('text', '')})
+        return {'records': records}
+
+    srcp = os.path.join(repo, u['source'])
+    if not os.path.exists(srcp):
+        return undecided_all(f'LOST-ANCHOR file {u["source"]} missing')
+    src = open(srcp).read()
+    prelude = open(os.path.join(VDIR, u['prelude'])).read()
+    if '//@EXTRACTED-FUNCTIONS' not in prelude:
+        return undecided_all('prelude lacks //@EXTRACTED-FUNCTIONS marker')
+    pre_head = prelude[:prelude.index('//@EXTRACTED-FUNCTIONS')]
+    pre_tail = prelude[prelude.index('//@EXTRACTED-FUNCTIONS') + len('//@EXTRACTED-FUNCTIONS'):]
+    text = pre_head
+    ranges = []       # (first_line, last_line, id, kind)
+    dropped_total = 0
+    try:
+        for f in u['function']:
+            ex = extract_fn(src, f['name'])
+            if ex is None:
+                return undecided_all(f'LOST-ANCHOR fn {f["name"]} not found in {u["source"]}')
+            ann, dropped = annotate(ex[0], ex[1], f)
+            dropped_total += dropped
+            a = text.count('\n') + 1
+            text += f'// ---- extracted verbatim from {u["source"]}: fn {f["name"]} ----\n' + ann + '\n'
+            ranges.append((a, text.count('\n'), f['id'], 'complete', f))
+        for c in u.get('canary', []):
+            f = next(f for f in u['function'] if f['name'] == c['of'])
+            ex = extract_fn(src, f['name'])
+            ann, _ = annotate(ex[0], ex[1], f, rename=f['name'] + '__canary', ensures_override=c['replace_ensures'])
+            a = text.count('\n') + 1
+            text += f'// ---- canary: fn {f["name"]} under a deliberately false postcondition ----\n' + ann + '\n'
+            ranges.append((a, text.count('\n'), c['id'], 'canary', {'text': 'canary: false postcondition on ' + f['name']}))
+    except ValueError as e:
+        return undecided_all(str(e))
+    text += pre_tail
+    vf = os.path.join(scratch, f'verus_{u["unit"]}.rs')
+    open(vf, 'w').write(text)
+    os.makedirs(out_dir, exist_ok=True)
+    keep = os.path.join(out_dir, f'verus_{u["unit"]}.rs')
+    open(keep, 'w').write(text)
+    cmd = ['verus', vf, '--output-json', '--time', '--multiple-errors', '20']
+    try:
+        p = subprocess.run(cmd, stdout=subprocess.PIPE, stderr=subprocess.PIPE, text=True, timeout=int(u.get('timeout', 600)))
+    except subprocess.TimeoutExpired:
+        return undecided_all('verus timed out')
+    wall = time.time() - t0
+    js = None
+    try:
+        js = json.loads(p.stdout[p.stdout.index('{'):])
+    except Exception:
+        pass
+    stderr = p.stderr
+    vr = (js or {}).get('verification-results', {})
+    times = (js or {}).get('times-ms', {})
+    smt_ms = 0
+    try:
+        smt_ms = times.get('smt', {}).get('total', 0) if isinstance(times.get('smt'), dict) else 0
+    except Exception:
+        pass
+    # rustc-level errors (unsupported construct, type error) => undecided
+    hard = re.findall(r'^error(?:\[E\d+\])?: (.*)$', stderr, re.M)
+    verr = [h for h in hard if re.search(r'postcondition not satisfied|invariant not satisfied|precondition not satisfied|'
+                                         r'assertion failed|possible arithmetic underflow/overflow|precondition not met|'
+                                         r'possible division by zero|decreases not satisfied', h)]
+    other = [h for h in hard if h not in verr and not h.startswith('aborting due to')]
+    rlimit = [h for h in hard if 'rlimit' in h.lower() or 'resource limit' in h.lower()]
+    if js is None or (other and not vr) or rlimit:
+        reason = 'verus did not produce a verdict: ' + '; '.join((rlimit or other)[:3])[:300]
+        return undecided_all(reason)
+    # map each verification error to a function by line number
+    err_by_id = {}
+    blocks = re.split(r'\n(?=error)', stderr)
+    for b in blocks:
+        m = re.match(r'error: (.*)', b)
+        if not m or m.group(1).startswith('aborting'):
+            continue
+        lines_ = [int(x) for x in re.findall(r'--> [^:\n]+:(\d+):\d+', b)]
+        for (a, z, oid, kind, f) in ranges:
+            if any(a <= ln <= z for ln in lines_):
+                err_by_id.setdefault(oid, []).append(b.strip()[:1500])
+                break
+        else:
+            err_by_id.setdefault('__prelude__', []).append(b.strip()[:1500])
+    if '__prelude__' in err_by_id:
+        return undecided_all('verus error outside the extracted functions (prelude/lemmas): ' + err_by_id['__prelude__'][0][:200])
+    nfun = max(1, len(ranges))
+    for (a, z, oid, kind, f) in ranges:
+        errs = err_by_id.get(oid, [])
+        rec = {'id': oid, 'engine': 'verus', 'kind': kind, 'text': f.get('text', ''), 'vcs': 1,
+               'verus_s': round(wall / nfun, 2), 'file': keep}
+        if kind == 'canary':
+            if errs:
+                rec['status'] = 'canary-ok'
+            else:
+                rec['status'] = 'undecided'
+                rec['reason'] = 'CANARY-PASSED: a deliberately false postcondition verified'
+        elif errs:
+            rec['status'] = 'failed'
+            rec['failed_checks'] = [{'description': re.match(r'error: (.*)', e).group(1) + ' @ ' +
+                                     (re.search(r'\n\s*\d+ \|\s*(.*)', e).group(1).strip()[:160] if re.search(r'\n\s*\d+ \|\s*(.*)', e) else '')}
+                                    for e in errs]
+            rec['output'] = '\n\n'.join(errs)
+            rec['checks_failed'] = 1
+        else:
+            rec['status'] = 'discharged'
+        records.append(rec)
+    # the lemmas / spec of the prelude verified too (verus reports totals only)
+    records.append({'id': u['unit'].upper() + '.V.lemmas', 'engine': 'verus', 'kind': 'complete', 'status': 'discharged',
+                    'text': f'spec functions, length lemmas, big-swap / inverse / push-pop lemmas and documented examples of the prelude '
+                            f'(verus totals: {vr.get("verified")} verified, {vr.get("errors")} errors incl. canary); extraction dropped {dropped_total} logging lines',
+                    'vcs': max(1, int(vr.get('verified', 0)) - len([r for r in ranges if r[3] == 'complete'])), 'verus_s': 0.0, 'smt_ms': smt_ms})
+    return {'records': records}
